@@ -44,6 +44,7 @@ def run(prog, chk):
     functions(prog, chk)
     malformed(prog, chk)
     once_and_rng(prog, chk)
+    single_precision_only(prog, chk)
     from props import geomalg
     n = geomalg.check_sites(prog, chk, "C14")
     chk.floor("A17.site-algebra", n, 36, "built-in function compared with the reference algebra")
@@ -381,3 +382,24 @@ if __name__ == "__main__":
     from sa import facts, prog as pm
     p = pm.Program(facts.load("/repo"))
     print(json.dumps({"functions": extract_functions(p)}, indent=1))
+
+
+def single_precision_only(prog, chk):
+    """IEEE *single* precision: no f64 value anywhere in the expression evaluator (src/expression.rs, src/functions.rs) -
+    a wider running total changes results (`100000000 + 3 - 100000000`)"""
+    n32 = 0
+    wide = []
+    for b in prog.bodies.values():
+        if not (b.path.startswith("svgdx::expression::") or b.path.startswith("svgdx::functions::") or "svgdx::expression::" in b.path.split(" as ")[0]):
+            continue
+        for i, l in enumerate(b.locals):
+            ty = (l.get("ty") or "").strip()
+            if ty == "f32":
+                n32 += 1
+            if ty == "f64" or "f64" in ty.split("<")[0]:
+                wide.append((b, i))
+    chk.floor("A14.single-precision", n32, 50, "f32 local in the expression evaluator")
+    for (b, i) in wide[:5]:
+        chk.bad("A14.single-precision", f"{b.short}:f64", b.where(), f"{b.short} holds an f64 value (local _{i}): arithmetic carried out in double precision and rounded once gives different results from IEEE single-precision evaluation step by step")
+    if not wide:
+        chk.ok("A14.single-precision", "scan", "src/expression.rs", f"{n32} f32 locals, no f64 in the evaluator")
